@@ -5,8 +5,16 @@
  *   PROG  := TREE SCHED { "(" K PROG ")" }      a traversal; during its K-th call (1-based), before
  *                                               returning from it, its callback runs the PROG
  *   TREE  := tree in jvtext | "="               "=": the very tree object of the enclosing traversal
- *   SCHED := "-" | comma-separated ints         returned by the callback for its 1st, 2nd, … call
+ *   SCHED := CODES { "@f" INT | "@a" N }
+ *   CODES := "-" | comma-separated ints         returned by the callback for its 1st, 2nd, … call
  *                                               (0 = CONTINUE afterwards)
+ *            @f INT                             the future_flags argument of json_c_visit (default 0)
+ *            @a N                               which user argument is passed: 0 the driver's record
+ *                                               of the traversal (default), 1 NULL, 2 a 1-byte heap
+ *                                               block, 3 the root of the tree, 4 the odd address 1
+ *
+ * The flags value of every call is printed verbatim.  The user argument every call arrives
+ * with is compared with the one given to json_c_visit.
  *
  * Every traversal has its own user function (cb_0 … cb_15) and its own user argument.
  * One traversal on the line: one step per call "<path> <flags> <parent> <key|index> <depth>",
@@ -109,6 +117,9 @@ struct trav {
 	int owns_tree;
 	long long *codes;
 	size_t ncodes, ncalls;
+	int future_flags;
+	void *userarg;         /* what is handed to json_c_visit */
+	void *heaparg;
 	int parent;            /* started by the callback of this traversal … (-1: top level) */
 	size_t at;             /* … during its call number `at` */
 	int started, ret;
@@ -121,7 +132,7 @@ static json_c_visit_userfunc *cbs[MAXT];
 static void start(int i)
 {
 	tr[i].started = 1;
-	tr[i].ret = json_c_visit(tr[i].tree, 0, cbs[i], (void *)&tr[i]);
+	tr[i].ret = json_c_visit(tr[i].tree, tr[i].future_flags, cbs[i], tr[i].userarg);
 }
 
 static int cb_common(int id, struct json_object *jso, int flags, struct json_object *parent,
@@ -132,7 +143,7 @@ static int cb_common(int id, struct json_object *jso, int flags, struct json_obj
 	long pe = parent ? tab_find(parent) : -3, depth;
 	size_t k;
 	int j;
-	if (ntr == 1 && arg != (void *)me) fputs("BADARG ", f);
+	if (ntr == 1 && arg != me->userarg) fputs("BADARG ", f);
 	if (jso) depth = put_path(f, tab_find(jso), 0, 0);
 	else if (!parent) {
 		if (me->tree) { fputs("UNKNOWN", f); depth = -1; } else { fputc('/', f); depth = 0; }
@@ -168,9 +179,9 @@ static int cb_common(int id, struct json_object *jso, int flags, struct json_obj
 	else fputc('-', f);
 	fprintf(f, " %ld", depth);
 	if (ntr > 1) {
-		if (arg == (void *)me) fputs(" own", f);
+		if (arg == me->userarg) fputs(" own", f);
 		else {
-			for (j = 0; j < ntr; j++) if (arg == (void *)&tr[j]) break;
+			for (j = 0; j < ntr; j++) if (arg == tr[j].userarg) break;
 			if (j < ntr) fprintf(f, " arg%d", j); else fputs(" argX", f);
 		}
 	}
@@ -214,6 +225,28 @@ static void parse_prog(int parent, size_t at)
 	}
 	q = toks[curtok++];
 	tr[id].codes = (long long *)malloc((strlen(q) + 1) * sizeof(long long));
+	tr[id].userarg = (void *)&tr[id];
+	{
+		char *opt = strchr(q, '@');
+		while (opt) {
+			char *next = strchr(opt + 1, '@');
+			*opt = 0;
+			if (next) *next = 0;
+			if (opt[1] == 'f') tr[id].future_flags = (int)strtoll(opt + 2, NULL, 10);
+			else if (opt[1] == 'a') {
+				switch (atoi(opt + 2)) {
+				case 0: break;
+				case 1: tr[id].userarg = NULL; break;
+				case 2: tr[id].heaparg = (malloc)(1); tr[id].userarg = tr[id].heaparg; break;
+				case 3: tr[id].userarg = (void *)tr[id].tree; break;
+				case 4: tr[id].userarg = (void *)(uintptr_t)1; break;
+				default: bad = 1;
+				}
+			} else bad = 1;
+			if (next) *next = '@';
+			opt = next;
+		}
+	}
 	if (strcmp(q, "-") != 0) {
 		for (;;) {
 			char *e;
@@ -277,6 +310,7 @@ void run_case(char *rest)
 	for (t = 0; t < ntr; t++) {
 		if (tr[t].owns_tree) json_object_put(tr[t].tree);
 		free(tr[t].codes);
+		(free)(tr[t].heaparg);
 	}
 	ntab = 0;
 	free(toks);
